@@ -134,7 +134,10 @@ def build_ann(s):
             c = {"Duck": Duck, "Duck2": Duck2, "Any": typing.Any, "Fault": FaultDuck}[cls]
         return cat[c, s[1]]
     if k == "narr":
-        return jaxtyping.Float[jaxtyping.Float[Duck, s[2]], s[1]]
+        # ["narr", outer dims, inner dims, outer category = Float, inner category = Float]
+        oc = getattr(jaxtyping, s[3] if len(s) > 3 else "Float")
+        ic = getattr(jaxtyping, s[4] if len(s) > 4 else "Float")
+        return oc[ic[Duck, s[2]], s[1]]
     if k == "pytree":
         from jaxtyping import PyTree
 
